@@ -1,6 +1,6 @@
 #!/usr/bin/env python3
 """dev tool (not run by bin/check): harness journals -> KF-C14-* entries (ids are stable; entries no longer observed become "fixed").
-   gen/c14_findings.py <journals of c14_faults --mode fault|abandon|weight|reject ...> [--write [--no-fix]]
+   gen/c14_findings.py <journals of c14_faults --mode fault|abandon|weight|reject ...> [--write [--no-fix]]   (run bin/check with VERIF_KEEP=1 to keep its journals)
 --write updates the C14 entries of /verif/known_findings.json (everybody else's are kept; the file is re-read right before)."""
 import sys, json, collections, subprocess, re
 sys.path.insert(0, '/verif')
@@ -45,7 +45,7 @@ for path in [a for a in sys.argv[1:] if not a.startswith("--")]:
         verd = {}
         for l in r.stdout.splitlines():
             t = l.split(None, 2)
-            if t and t[0] in ("ok", "MISMATCH"): verd[int(t[1])] = (t[0], t[2] if len(t) > 2 else "")
+            if t and t[0] in ("ok", "MISMATCH", "ok-representation-only"): verd[int(t[1])] = (t[0], t[2] if len(t) > 2 else "")
         c.analyse_reject(lines, verd, report, collections.Counter(), [])
         continue
     for i, l in enumerate(lines):
@@ -97,6 +97,15 @@ SPECIAL = {
 kfp = '/verif/known_findings.json'
 # commits of /repo that repaired earlier findings: (site, predicate) patterns -> commit
 FIXED_BY = [
+ (lambda s, p: s.startswith("reject:BD_Shape_mpq:add_"), "bcff4db"),
+ (lambda s, p: s.startswith("reject:Octagonal_Shape_mpq:add_"), "d118ccd"),
+ (lambda s, p: s.startswith("reject:Rational_Box:add_"), "2c68c03"),
+ (lambda s, p: s.startswith("reject:Grid:add_") and "constraints" in s, "7218b6b"),
+ (lambda s, p: s == "reject:Grid:add_constraint_inequality", "680f35a"),
+ (lambda s, p: s == "reject:Grid:generalized_affine_image_inequality_with_modulus", "a13dde6"),
+ (lambda s, p: s.startswith("reject:Pointset_Powerset_C:") and ("add_constraint_dim" in s or "intersection_assign_dim" in s), "cc896a6"),
+ (lambda s, p: s == "unfaulted:Rational_Box.ctor_from_C_Polyhedron_poly", "54fbc54"),
+ (lambda s, p: s == "unfaulted:Grid.is_universe", "a1adcb8"),
  (lambda s, p: p == "element_copy_throws_in_fill_loop", "b3209bf"),
  (lambda s, p: p == "begin_ne_end_on_empty_tree", "6fe0c25"),
  (lambda s, p: p == "constraint_copies_not_deleted_when_constructor_throws", "08ac3bf"),
@@ -118,6 +127,11 @@ def main_write(entries):
     nmax = max([int(f["id"].split("-")[-1]) for f in old] + [0])
     for f in old:                                   # ids are stable
         key = (f["site"], f["predicate"])
+        key2 = (f["site"], f["predicate"] + ":offender_after_applied_elements")
+        if key not in seen and key2 not in seen:
+            key2 = (f["site"], f["predicate"] + ":first_component_modified_before_the_second_rejects")
+        if key not in seen and key2 in seen:        # system overloads: the position of the offender is now part of the predicate
+            f["predicate"] = key2[1]; key = key2
         if key in seen:
             f["status"] = "open"; f.pop("fixed_by", None)
             f["what"] = seen[key]["what"]; f["witness"] = seen[key]["witness"]
